@@ -235,3 +235,25 @@ func VerifC07_Proprietary(L int) {
 	}
 	verifReach("other-direction")
 }
+
+// Two occurrences of the same proprietary CID in one stream keep their own payload bytes.
+func VerifC07_ProprietaryTwice(size int) {
+	up := verifNondetBool("uplink")
+	cid := verifNondetU8("cid")
+	verifAssume(cid >= 128)
+	verifAssert(RegisterProprietaryMACCommand(up, CID(cid), size) == nil, "proprietary: registration succeeds")
+	p1 := verifNondetBytes("first", size)
+	p2 := verifNondetBytes("second", size)
+	stream := append(append(append([]byte{cid}, p1...), cid), p2...)
+	out, err := decodeDataPayloadToMACCommands(up, []Payload{&DataPayload{Bytes: stream}})
+	verifAssert(err == nil, "proprietary: stream of two framed commands decodes")
+	verifAssert(len(out) == 2, "proprietary: two commands")
+	for k, want := range [][]byte{p1, p2} {
+		mc, ok := out[k].(*MACCommand)
+		verifAssert(ok, "proprietary: element is a MACCommand")
+		pp, ok := mc.Payload.(*ProprietaryMACCommandPayload)
+		verifAssert(ok, "proprietary: payload type")
+		verifAssert(verifBytesEq(pp.Bytes, want), "proprietary: every occurrence of the command keeps its own payload bytes")
+	}
+	verifReach("done")
+}
